@@ -123,9 +123,11 @@ def run(ctx):
     for o in pr:
         if not o["answered"]:
             ctx.violation("C16:deadlock:%s" % o["name"], "requests were never answered (3 x 1.1 s): " + o["what"], o)
+        elif o.get("unclosed", 0) > 0:
+            ctx.violation("C16:leak:%s" % o["name"], "%d File(s) were never closed after the connection went away (references taken for a rename notification leaked): %s" % (o["unclosed"], o["what"]), o)
     if st and not st[0]["answered"]:
         ctx.violation("C16:stall", "a request on another fid was not answered (3 x 1.1 s) while the backend held the Close of a Tclunk on the same connection", st[0])
-    if rc == 0 and (not st or not rd or len(pr) < 5):
+    if rc == 0 and (not st or not rd or len(pr) < 6):
         ctx.harness_broken("targeted probes did not all report (stall=%d renamedisc=%d probes=%d)" % (len(st), len(rd), len(pr)), out)
     mp = [o for o in obs4 if o.get("kind") == "mapper"]
     if "concurrent map" in out4 or "DATA RACE" in out4 or (mp and not mp[0]["consistent"]):
